@@ -114,8 +114,11 @@ Print Assumptions C07_quote_refuted.
     EVERY input string ([quoted_token esc tok]: walking the token from its first byte with the
     scanner's quote skipping ends outside every quote exactly at the end of the token, whatever
     follows; [esc] = the scanner's BackslashEscapes):
-    - PostgreSQL quote and sqlx.SingleQuote (escaping branch) for the scanners without backslash
-      escapes (generic, PostgreSQL, SQLite);
+    - PostgreSQL quote and sqlx.SingleQuote for the scanners without backslash escapes (generic,
+      PostgreSQL, SQLite): raw inputs, and inputs already quoted with the double quote (legacy SQLite defaults:
+      unquoted by strconv.Unquote — any function [unq] — and re-quoted with the apostrophe doubled);
+      inputs already quoted with ' are passed through unchanged (clause 4; closed exactly when the
+      input was: C07_quote_refuted has the input IsQuoted wrongly accepts);
     - MySQL quote = strconv.Quote for the MySQL scanner, for every set [np] of non-printable runes.
     The pass-through branch (input already quoted according to IsQuoted) and formatValues are
     refuted above (C07_quote_refuted). *)
@@ -123,14 +126,19 @@ Theorem C07_quote_closed :
   (forall s, is_quoted s [39%N] = false -> lit_closed opts_postgres (pg_quote s) = true
                                           /\ lit_closed opts_generic (pg_quote s) = true
                                           /\ lit_closed opts_sqlite (pg_quote s) = true)
-  /\ (forall s t, is_quoted s [39%N] = false -> single_quote s = Some t ->
+  /\ (forall unq s t, is_quoted s [39%N] = false -> single_quote unq s = Some t ->
                   lit_closed opts_sqlite t = true /\ lit_closed opts_generic t = true)
+  /\ (forall unq s v, is_quoted s [39%N] = false -> is_quoted s [34%N] = true -> unq s = Some v ->
+                  single_quote unq s = Some ([39%N] ++ double_sq v ++ [39%N]))
+  /\ (forall unq s, is_quoted s [39%N] = true -> single_quote unq s = Some s)
   /\ (forall np s, is_quoted s [34%N; 39%N] = false -> lit_closed opts_mysql (mysql_quote np s) = true)
   /\ (forall np s, lit_closed opts_mysql (go_quote np s) = true).
 Proof.
-  split; [|split; [|split]].
+  split; [|split; [|split; [|split; [|split]]]].
   - intros s H. pose proof (pg_quote_closed s H) as P. repeat split; exact P.
-  - intros s t H1 H2. pose proof (single_quote_closed s t H1 H2) as P. split; exact P.
+  - intros unq s t H1 H2. pose proof (single_quote_closed unq s t H1 H2) as P. split; exact P.
+  - intros unq s v H1 H2 H3. unfold single_quote. rewrite H1, H2, H3. reflexivity.
+  - intros unq s H. exact (single_quote_passthrough unq s H).
   - intros np s H. exact (mysql_quote_closed np s H).
   - intros np s. exact (go_quote_closed np s).
 Qed.
